@@ -842,7 +842,7 @@ def run(ctx: Ctx) -> None:
     for obj in load_corpus("C03"):
         replay(ctx, obj)
     shards = 16
-    n = ctx.pick(2400, 120000) // shards
+    n = ctx.pick(2400, 60000) // shards
     seeds = [ctx.rng.randrange(2**62) for _ in range(shards)]
     for part in pmap(_worker, [(s, n) for s in seeds]):
         ctx.merge(part)
